@@ -23,6 +23,7 @@
 //! moderate cardinalities.
 
 use crate::common::NumStdDev;
+use crate::error::Error;
 use crate::hll::composite_interpolation;
 use crate::hll::cubic_interpolation;
 use crate::hll::harmonic_numbers;
@@ -315,6 +316,62 @@ impl HipEstimator {
 
 /// Compute 1 / 2^value (inverse power of 2)
 #[inline]
+/// Checks the bookkeeping fields of an array-mode image against the registers it carries.
+///
+/// The sketch keeps relying on these fields after deserialization (`num_at_cur_min` is
+/// counted down, `cur_min` is subtracted from register values, the raw estimate divides by
+/// `kxq0 + kxq1`), so an image whose fields contradict its registers must be rejected here
+/// instead of failing later with an arithmetic overflow or a broken invariant.
+pub(super) fn check_array_fields(
+    values: impl Iterator<Item = u8>,
+    cur_min: u8,
+    num_at_cur_min: u32,
+    hip_accum: f64,
+    kxq0: f64,
+    kxq1: f64,
+) -> Result<(), Error> {
+    let mut at_cur_min = 0u32;
+    let mut sum0 = 0.0f64;
+    let mut sum1 = 0.0f64;
+    let mut k = 0u32;
+    for value in values {
+        if value > 63 || value < cur_min {
+            return Err(Error::deserial(format!(
+                "corrupted: register value {value} outside [{cur_min}, 63]"
+            )));
+        }
+        if value == cur_min {
+            at_cur_min += 1;
+        }
+        if value < 32 {
+            sum0 += inv_pow2(value);
+        } else {
+            sum1 += inv_pow2(value);
+        }
+        k += 1;
+    }
+    if at_cur_min != num_at_cur_min {
+        return Err(Error::deserial(format!(
+            "corrupted: {num_at_cur_min} registers announced at cur_min, found {at_cur_min}"
+        )));
+    }
+    // kxq0/kxq1 are maintained incrementally, so they may differ from a fresh sum by
+    // accumulated rounding; anything beyond that is corruption.
+    let tolerance = 1e-6 * f64::from(k);
+    let close = |stored: f64, fresh: f64| stored.is_finite() && (stored - fresh).abs() <= tolerance;
+    if !close(kxq0, sum0) || !close(kxq1, sum1) {
+        return Err(Error::deserial(format!(
+            "corrupted: kxq0/kxq1 ({kxq0}, {kxq1}) do not match the registers ({sum0}, {sum1})"
+        )));
+    }
+    if !hip_accum.is_finite() || hip_accum < 0.0 {
+        return Err(Error::deserial(format!(
+            "corrupted: hip accumulator {hip_accum}"
+        )));
+    }
+    Ok(())
+}
+
 fn inv_pow2(value: u8) -> f64 {
     if value == 0 {
         1.0
